@@ -2,6 +2,7 @@ package props
 
 import (
 	"fmt"
+	"math"
 
 	"gopkg.in/typ.v4/slices"
 	"verifharness/internal/core"
@@ -21,6 +22,12 @@ func runC13(c *core.Ctx) {
 		n := int(c.Index)
 		for size := 1; size <= 70; size++ {
 			if !partCheck(c, n, size) {
+				return
+			}
+		}
+		// sizes used as "no limit": arithmetic on them must not overflow
+		for _, size := range []int{math.MaxInt, math.MaxInt - 1, math.MaxInt - n, math.MaxInt - n + 1, math.MaxInt/2 + 1, 1 << 62, 1 << 31} {
+			if size >= 1 && !partCheck(c, n, size) {
 				return
 			}
 		}
@@ -59,12 +66,18 @@ func runC13(c *core.Ctx) {
 }
 
 func partCheck(c *core.Ctx, n, size int) bool {
-	in := make([]int, n)
+	// the input has spare capacity holding sentinels: pieces must be cut from
+	// len(slice), never from cap(slice)
+	spare := (n + size%4) % 4
+	in := make([]int, n, n+spare)
 	for i := range in {
 		in[i] = i + 1
 	}
+	for i := n; i < n+spare; i++ {
+		in[:n+spare][i] = -1000 - i
+	}
 	snap := append([]int(nil), in...)
-	tag := fmt.Sprintf("[n=%d size=%d rem=%d]", n, size, n%size)
+	tag := fmt.Sprintf("[n=%d size=%d rem=%d spare-capacity=%d]", n, size, n%size, spare)
 	cls := "rem0"
 	switch {
 	case size > n:
@@ -84,12 +97,13 @@ func partCheck(c *core.Ctx, n, size int) bool {
 	c.Count("class_"+cls, 1)
 	// ---- Chunk
 	var want [][]int
-	for i := 0; i < n; i += size {
-		j := i + size
-		if j > n {
-			j = n
+	for i := 0; i < n; {
+		j := n
+		if size < n-i {
+			j = i + size
 		}
 		want = append(want, snap[i:j])
+		i = j
 	}
 	var got [][]int
 	if p, pv := core.Catch(func() { got = slices.Chunk(in, size) }); p {
@@ -120,7 +134,7 @@ func partCheck(c *core.Ctx, n, size int) bool {
 	}
 	// ---- Windowed
 	want = nil
-	for i := 0; i+size <= n; i++ {
+	for i := 0; size <= n-i; i++ {
 		want = append(want, snap[i:i+size])
 	}
 	got = nil
